@@ -101,6 +101,8 @@ func (cuckooFilter *CuckooFilter) Insert(data []byte, destructive bool) bool {
 				cuckooFilter.length++
 				return true
 			}
+			currFingerPrint = prevFingerPrint
+			index = newIndex
 		}
 		if !destructive {
 			for i := len(items) - 1; i >= 0; i-- {
